@@ -5,7 +5,7 @@
    by the CRLF oracle (L2). *)
 From IRC Require Import Str Wild Glob Parse Reply State Handlers Step.
 From IRC Require Import Frame.
-From IRCP Require Import RoundP ParseP FrameP.
+From IRCP Require Import RoundP ParseP FrameP RelayP.
 From Coq Require Import List Arith Lia.
 Import ListNotations.
 
@@ -47,6 +47,24 @@ Theorem C13_relay_reparses : forall l m src, tokenize l = inl m -> nows src -> v
   tokenize (to_string_with_source m src) =
   inl {| m_source := Some src; m_command := m_command m; m_params := m_params m |}.
 Proof. exact relay_reparses. Qed.
+
+(* the relays that are built by formatting (PART, KICK, PRIVMSG / NOTICE; `from_` is the
+   ':'source SP body` of the handlers) re-parse on the receiver's side to the verb, target(s) and
+   text they were built from - for EVERY text: blanks, colons, empty, leading colon *)
+Theorem C13_relay_part : forall src ch reason, nows src -> validate_source src = true -> mid_ok ch ->
+  tokenize (from_ src (lit "PART " ++ ch ++ lit " :" ++ reason))
+  = inl {| m_source := Some src; m_command := lit "PART"; m_params := [ch; reason] |}.
+Proof. exact relay_part. Qed.
+
+Theorem C13_relay_kick : forall src ch victim comment, nows src -> validate_source src = true -> mid_ok ch -> mid_ok victim ->
+  tokenize (from_ src (lit "KICK " ++ ch ++ [c_space] ++ victim ++ lit " :" ++ comment))
+  = inl {| m_source := Some src; m_command := lit "KICK"; m_params := [ch; victim; comment] |}.
+Proof. exact relay_kick. Qed.
+
+Theorem C13_relay_msg : forall src verb target text, nows src -> validate_source src = true -> mid_ok verb -> mid_ok target ->
+  tokenize (from_ src (verb ++ [c_space] ++ target ++ lit " :" ++ text))
+  = inl {| m_source := Some src; m_command := verb; m_params := [target; text] |}.
+Proof. exact relay_msg. Qed.
 
 (* classification: a verb outside the table is answered 421 with the upper-cased name ... *)
 Theorem C13_unknown_is_421 : forall m,
@@ -118,6 +136,9 @@ Print Assumptions C13_tokens_wellformed.
 Print Assumptions C13_serialise_parse.
 Print Assumptions C13_grammar_complete.
 Print Assumptions C13_relay_reparses.
+Print Assumptions C13_relay_part.
+Print Assumptions C13_relay_kick.
+Print Assumptions C13_relay_msg.
 Print Assumptions C13_unknown_is_421.
 Print Assumptions C13_too_few_is_461.
 Print Assumptions C13_executed_as_named.
